@@ -47,26 +47,45 @@ func NewGuardianSets(
 	return gs
 }
 
+// currentIndex returns the index of the latest known guardian set.
+func (gs *GuardianSets) currentIndex() int {
+	gs.lock.Lock()
+	defer gs.lock.Unlock()
+	return gs.currentGuardianSetIndex
+}
+
+// lookup returns the guardian set with the given index, or nil if it is not known yet.
+func (gs *GuardianSets) lookup(index int) *common.GuardianSet {
+	gs.lock.Lock()
+	defer gs.lock.Unlock()
+	if index < 0 || index > gs.currentGuardianSetIndex {
+		return nil
+	}
+	return gs.guardianSetLists[index]
+}
+
 func (gs *GuardianSets) GetGuardianSet(ctx context.Context, index int) (*common.GuardianSet, error) {
-	if index <= gs.currentGuardianSetIndex {
-		return gs.guardianSetLists[index], nil
+	if guardianSet := gs.lookup(index); guardianSet != nil {
+		return guardianSet, nil
 	}
 
 	// Perhaps the guardian set has been updated and we need to query from the chain
-	guardianSets, err := gs.getGuardianSetsRange(ctx, uint32(gs.currentGuardianSetIndex+1), uint32(index))
+	guardianSets, err := gs.getGuardianSetsRange(ctx, uint32(gs.currentIndex()+1), uint32(index))
 	if err != nil {
 		return nil, err
 	}
 	gs.updateGuardianSets(guardianSets)
 	gs.guardianSetC <- gs.GetCurrentGuardianSet()
 
-	if index > gs.currentGuardianSetIndex {
-		return nil, fmt.Errorf("invalid guardian index %v, current guardian set index: %v", index, gs.currentGuardianSetIndex)
+	if guardianSet := gs.lookup(index); guardianSet != nil {
+		return guardianSet, nil
 	}
-	return gs.guardianSetLists[index], nil
+	return nil, fmt.Errorf("invalid guardian index %v, current guardian set index: %v", index, gs.currentIndex())
 }
 
 func (gs *GuardianSets) GetCurrentGuardianSet() *common.GuardianSet {
+	gs.lock.Lock()
+	defer gs.lock.Unlock()
 	return gs.guardianSetLists[gs.currentGuardianSetIndex]
 }
 
@@ -80,7 +99,7 @@ func (gs *GuardianSets) updateGuardianSet(ctx context.Context) {
 	for {
 		select {
 		case <-tick.C:
-			guardianSets, err := GetGuardianSetsFromChain(ctx, gs.ethRpcUrl, gs.ethGovernanceAddress, uint32(gs.currentGuardianSetIndex+1))
+			guardianSets, err := GetGuardianSetsFromChain(ctx, gs.ethRpcUrl, gs.ethGovernanceAddress, uint32(gs.currentIndex()+1))
 			if err != nil {
 				gs.logger.Error("failed to get guardian sets", zap.Error(err))
 				continue
